@@ -3,6 +3,7 @@ CONSTANTS NP = 0
  NF = 0
  NA = 0
  NC = 3
+ NS = 0
  Light = FALSE
 INIT InitGen
 NEXT EvalGen
